@@ -24,6 +24,7 @@ RULE = ("seeded sampling over entry point x method {newton, broyden1, broyden2, 
         "plus directed exact-arithmetic cases (dyadic affine maps whose root is hit exactly after one step, constant maps, y0 a bitwise "
         "root for real and complex unknowns); non-trivial = the call returned and the spy recorded >= 3 evaluations of the user "
         "function (>= 2 iterations), or a directed case whose exact-root event (|f| == 0 in the history) was observed")
+RULE += ('; the method name is spelled in lower / upper / title / alternating case (seeded)')
 MIN_NONTRIVIAL = {"quick": 1500, "thorough": 18000}
 ASSUMPTIONS = [
     "families are y - h(y) with h a q-contraction, q <= 0.6 (holomorphic family: q <= 0.35 inside its invariant ball |y| <= 0.5; convex "
